@@ -219,14 +219,24 @@ def run(ctx):
     family = t.pick(FAMILIES, "family")
     tools = prop == "C34" or t.chance(1, 4, "tools")
     memo = t.chance(1, 4, "memoization")
-    nloads = 1 + (t.draw(3, "nloads") if t.chance(1, 3, "several-loads") else 0)
+    nloads = 1 + (t.draw(5, "nloads") if t.chance(1, 3, "several-loads") else 0)
+    same_world = t.chance(1, 2, "reload-the-same-files")  # identical allocation pattern: ids get recycled
+    if nloads > 1 and same_world:
+        nloads = 4 + t.draw(9, "nreloads")  # many identical reloads make id recycling (near) certain in any process
     mm = metamodel_from_str(grammar(), textx_tools_support=tools, memoization=memo)
     sigs = []
     samples = []
     nontrivial = False
     for rep in range(nloads):
         ctx.nontrivial = False
-        ok = episode(ctx, t, prop, family, tools, memo, mm, rep)
+        if rep > 0 and same_world:
+            # replay the draws of the first episode: the same files and schedule again on the same metamodel
+            sub = type(t)(values=t.rec[ep_start:ep_end])
+            ok = episode(ctx, sub, prop, family, tools, memo, mm, rep)
+        else:
+            ep_start = len(t.rec)
+            ok = episode(ctx, t, prop, family, tools, memo, mm, rep)
+            ep_end = len(t.rec)
         nontrivial = nontrivial or ctx.nontrivial
         sigs.append(ctx.sig)
         samples.append(ctx.sample)
